@@ -614,3 +614,46 @@ package boltz
 //@   ensures ref(result) == linkedTypeOf(self) && (result == nil) == (linkedTypeOf(self) == 0)
 //@ func (storeInternal).newEntitySymbol
 //@   pure
+
+// ---------------------------------------------------------------------------
+// The row cursor as a symbol table (C01): a symbol's typed value on the current row is the decoding (FieldTo*, C13)
+// of what the store's symbol evaluates to for that row; an unknown symbol is null.
+// rcSym(rs, name): the symbol the cursor resolves name to (cached after the first lookup; assumed stable).
+// ---------------------------------------------------------------------------
+//@ spec rcSym(rs Int, name Str) Int
+//@ func (*rowCursorImpl).getSymbol
+//@   modifies *
+//@   ensures ref(result) == rcSym(rs, name) && (result == nil) == (rcSym(rs, name) == 0) && rs.currentRow == old(rs.currentRow) && rs.tx == old(rs.tx) && symRow[rs] == old(symRow[rs])
+//@ define rcFT(rs, name) = symFT(rcSym(rs, name), str(rs.currentRow))
+//@ define rcBytes(rs, name) = symBytes(rcSym(rs, name), str(rs.currentRow))
+//@ define rcBytesNil(rs, name) = symBytesNil(rcSym(rs, name), str(rs.currentRow))
+//@ func (*rowCursorImpl).EvalString
+//@   props C01
+//@   nosafety
+//@   modifies *
+//@   ensures[decodes-the-stored-field] (result == nil) == (rcSym(rs, name) == 0 || f2sNull(old(rcFT(rs, name)), old(rcBytes(rs, name)), old(rcBytesNil(rs, name)))) && (result != nil ==> *result == f2sVal(old(rcFT(rs, name)), old(rcBytes(rs, name))))
+//@ func (*rowCursorImpl).EvalInt64
+//@   props C01
+//@   nosafety
+//@   modifies *
+//@   ensures[decodes-the-stored-field] (result == nil) == (rcSym(rs, name) == 0 || f2iNull(old(rcFT(rs, name)), old(rcBytes(rs, name)), old(rcBytesNil(rs, name)))) && (result != nil ==> *result == f2iVal(old(rcFT(rs, name)), old(rcBytes(rs, name))))
+//@ func (*rowCursorImpl).EvalFloat64
+//@   props C01
+//@   nosafety
+//@   modifies *
+//@   ensures[decodes-the-stored-field] (result == nil) == (rcSym(rs, name) == 0 || f2fNull(old(rcFT(rs, name)), old(rcBytes(rs, name)), old(rcBytesNil(rs, name)))) && (result != nil ==> *result == f2fVal(old(rcFT(rs, name)), old(rcBytes(rs, name))))
+//@ func (*rowCursorImpl).EvalBool
+//@   props C01
+//@   nosafety
+//@   modifies *
+//@   ensures[decodes-the-stored-field] (result == nil) == (rcSym(rs, name) == 0 || f2bNull(old(rcFT(rs, name)), old(rcBytes(rs, name)), old(rcBytesNil(rs, name)))) && (result != nil ==> *result == f2bVal(old(rcFT(rs, name)), old(rcBytes(rs, name))))
+//@ func (*rowCursorImpl).EvalDatetime
+//@   props C01
+//@   nosafety
+//@   modifies *
+//@   ensures[decodes-the-stored-field] (result == nil) == (rcSym(rs, name) == 0 || f2dNull(old(rcFT(rs, name)), old(rcBytes(rs, name)), old(rcBytesNil(rs, name)))) && (result != nil ==> timeInstant(*result) == f2dInstant(old(rcFT(rs, name)), old(rcBytes(rs, name))))
+//@ func (*rowCursorImpl).IsNil
+//@   props C01
+//@   nosafety
+//@   modifies *
+//@   ensures[null-tag-or-unknown-symbol] result == (rcSym(rs, name) == 0 || old(rcFT(rs, name)) == TypeNil)
